@@ -928,6 +928,48 @@ func (s *nsys) Apply(i int) (sig, desc string) {
 	return "", ""
 }
 
+// nestedBottomUp: the inner layout is populated before it is attached to the outer one (the
+// usual way of building a UI); once everything has a view and has been laid out and drawn,
+// the inner layout must have its preferred extent when the outer view has room.
+func nestedBottomUp() {
+	if *hc.Shard != 0 {
+		return
+	}
+	for ext := 6; ext <= 12; ext += 3 {
+		for _, n := range []int{1, 2} {
+			w.R.Evaluations++
+			parent := &recView{w: ext, h: 5}
+			inner := views.NewBoxLayout(views.Vertical)
+			var model []nleaf
+			for i := 0; i < n; i++ {
+				l := nleaf{id: rune('b' + i), pw: 3, ph: 1}
+				model = append(model, l)
+				inner.AddWidget(&recWidget{id: l.id, pw: l.pw, ph: l.ph}, 0)
+			}
+			outer := views.NewBoxLayout(views.Horizontal)
+			outer.AddWidget(&recWidget{id: 'A', pw: 2, ph: 1}, 0)
+			outer.AddWidget(inner, 0)
+			outer.AddWidget(&recWidget{id: 'Z', pw: 1, ph: 1}, 1)
+			outer.SetView(parent)
+			outer.Resize()
+			paint(parent, outer)
+			got := paint(parent, outer)
+			for _, l := range model {
+				cols := map[int]bool{}
+				for p, r := range got {
+					if r == l.id {
+						cols[p[0]] = true
+					}
+				}
+				if len(cols) < l.pw {
+					w.Violation("box-nested-bottomup", fmt.Sprintf("layout built bottom-up (inner layout with %d leaves of width 3 populated before it is attached), outer width %d: after SetView, Resize and two Draws leaf %c is %d columns wide, its preferred width is %d and the outer layout has room", n, ext, l.id, len(cols), l.pw), nil)
+				}
+			}
+			w.AddDistinct(1)
+		}
+	}
+}
+
 func nestedHistories() {
 	var ops []nop
 	for _, pw := range []int{1, 3, 6} {
@@ -1052,6 +1094,7 @@ func main() {
 	boxHistories()
 	nested()
 	nestedHistories()
+	nestedBottomUp()
 	for i := int64(0); i < w.R.States; i++ {
 		w.Distinct(uint64(*hc.Shard)<<40 | uint64(i))
 	}
